@@ -18,6 +18,8 @@
 //	req = <mode><reqmod><rt><resmod><close>[<errtext>][<body>]
 //	  mode   g plain request | b CONNECT on a proxy without MITM (blind tunnel) | m CONNECT on a MITM proxy
 //	         d CONNECT tunnelled blindly through the downstream proxy of a D case (b is invalid there)
+//	         p CONNECT on a MITM proxy after which the client speaks PLAINTEXT HTTP through the tunnel
+//	           (no TLS handshake: the proxy serves the tunnel as cleartext HTTP on the same session)
 //	  reqmod independent flags of ONE call (it always mutates the request):
 //	         P none | E return error | S skip round trip | H hijack the session
 //	         A hijack+error | B skip+error | C skip+hijack | D skip+hijack+error
@@ -110,7 +112,7 @@ func parseTok(t string) (reqTok, bool) {
 		}
 		t = t[:len(t)-1]
 	}
-	if len(t) != 5 || !strings.ContainsRune("gbmd", rune(t[0])) || !strings.ContainsRune("PESHABCD", rune(t[1])) ||
+	if len(t) != 5 || !strings.ContainsRune("gbmdp", rune(t[0])) || !strings.ContainsRune("PESHABCD", rune(t[1])) ||
 		!strings.ContainsRune("OFCNRETUXQS", rune(t[2])) || !strings.ContainsRune("PEHA", rune(t[3])) || !strings.ContainsRune("kc", rune(t[4])) {
 		return reqTok{}, false
 	}
@@ -707,7 +709,9 @@ func (e *env) playConn(addr string, toks []reqTok, base int, roots *tls.Config) 
 		}
 		rec.Add(fmt.Sprintf("W.%d.%d.%d.%d.%d", r, res.StatusCode, warnCount(res.Header), cl, len(res.Header.Values("X-Res-Mod"))))
 		if method == "CONNECT" && res.StatusCode == 200 {
-			if t.mode == 'm' {
+			if t.mode == 'p' {
+				// plaintext through the MITM'd tunnel: nothing to do, keep writing to the socket
+			} else if t.mode == 'm' {
 				cur.SetDeadline(time.Now().Add(respWait))
 				tc := tls.Client(cur, roots)
 				if err := tc.Handshake(); err != nil {
@@ -903,13 +907,13 @@ func runCase(in []string) (out []string) {
 		if !ok || len(conns) == 0 {
 			return []string{"BADCASE"}
 		}
-		if rt.mode == 'm' {
+		if rt.mode == 'm' || rt.mode == 'p' {
 			useMitm = true
 		}
 		if rt.mode == 'b' || rt.mode == 'd' {
 			blind = true
 		}
-		if (rt.mode == 'd') != via && rt.mode != 'g' && rt.mode != 'm' {
+		if (rt.mode == 'd') != via && (rt.mode == 'b' || rt.mode == 'd') {
 			return []string{"INVALID"} // b only without, d only with a downstream proxy
 		}
 		conns[len(conns)-1] = append(conns[len(conns)-1], rt)
@@ -1144,7 +1148,7 @@ func main() {
 	}
 	// 1. every combination of behaviour flags for a single request in every mode
 	//    (plain: 8 x 4 x 4 x 2; CONNECT blind / MITM: 8 x 2 x 4 x 2)
-	for _, m := range []byte("gbm") {
+	for _, m := range []byte("gbmp") {
 		for _, t := range allToks(m, true) {
 			emit("one", []string{"K", t})
 		}
@@ -1211,6 +1215,14 @@ func main() {
 	for _, t := range allToks('m', false) {
 		emit("mthen", []string{"K", t, "gEOAk", "gPCPk"})
 	}
+	//    and followed by PLAINTEXT requests through the MITM'd tunnel (the context table is sampled
+	//    inside every later exchange of the connection, whatever the tunnel carries)
+	for _, t := range allToks('p', false) {
+		emit("pthen", []string{"K", t, "gEOEk", "gPCPk", "gPOAk"})
+	}
+	for _, t := range allToks('g', false) {
+		emit("pinner", []string{"K", "pPOPk", t, "gPOPk"})
+	}
 	// 3. inside a MITM tunnel: CONNECT, then every behaviour as first inner request, then one more
 	for _, t := range allToks('g', true) {
 		emit("inner", []string{"K", "mPOPk", t, "gPOPk"})
@@ -1226,7 +1238,7 @@ func main() {
 	}
 	for k := 0; k < nr; k++ {
 		r := rng.Fork()
-		kind := "gbm"[r.Intn(3)]
+		kind := "gbmp"[r.Intn(4)]
 		var in []string
 		if r.Chance(1, 3) {
 			in = append(in, "D")
